@@ -270,6 +270,14 @@ def check(ctx):
             (l1, v1, c1), (l2, v2, c2) = sts
             ok = (v1 == want1 and v2 == want2
                   and any(a[0] == "except" and "KeyError" in pretty(a) for a, _ in c2))
+        elif not sts:
+            # ... or as a comprehension over the keys (normal form of the filling loop)
+            comps = [x for x in subterms(re_.ret() or ()) if x[0] == "comp" and x[1] == "dict"]
+            if len(comps) == 1 and comps[0][2][0] == key_t and comps[0][2][1][0] == "phi":
+                _, cnd, on_exc, normal = comps[0][2][1]
+                ok = (cnd[0] == "except" and "KeyError" in pretty(cnd) and normal == want1
+                      and on_exc == want2 and comps[0][3][0][1] == keys_p
+                      and not comps[0][3][0][2])
         elif len(sts) == 1 and sts[0][1][0] == "phi":
             # the same lookup written as a function that returns from `try` / `except`
             _, cnd, on_exc, normal = sts[0][1]
